@@ -259,6 +259,30 @@ example : (runReqs St.init exReqs).out =
      .routed (exMsg (some "e") 4), .failErr "f".toList] := by
   decide
 
+/-- The answer on the event stream FIRST, then the POST completes in any way whatsoever — 200 with
+a body, a 200 that cannot be decoded, 202, another status with or without a body, an exception:
+still exactly one read-stream entry with the request's id, the sender is idle afterwards (nothing
+is left waiting for anything), and the event stream's other messages are untouched. -/
+theorem c12_event_first_any_post (st : St α) (k : Str) (m : Msg α) (p : Post α) (bg0 bg1 bg2 : List (Msg α))
+    (hm : m.ok = true ∧ m.key = some k)
+    (hp : match p with | .ok200 (some b) => b.ok = true ∧ b.key = some k | _ => True)
+    (hbg : ∀ x ∈ bg0 ++ bg1 ++ bg2, x.key ≠ some k) :
+    ((run st (sched k (.evThenPost m p) bg0 bg1 bg2)).out.drop st.out.length).filter (hasKey k) = [postTerminal k m p]
+    ∧ (run st (sched k (.evThenPost m p) bg0 bg1 bg2)).phase = .idle
+    ∧ (run st (sched k (.evThenPost m p) bg0 bg1 bg2)).inDict = false
+    ∧ ((run st (sched k (.evThenPost m p) bg0 bg1 bg2)).out.drop st.out.length).filter (fun o => !hasKey k o)
+        = oks bg0 ++ oks bg1 ++ oks bg2 := by
+  have hwf : (Mode.evThenPost m p).wf k := ⟨hm, hp⟩
+  obtain ⟨h1, _, h3, _⟩ := c12_race_exactly_once st k (.evThenPost m p) bg0 bg1 bg2 hwf hbg
+  obtain ⟨h4, h5⟩ := c12_request_leaves_idle st k (.evThenPost m p) bg0 bg1 bg2 hwf hbg
+  exact ⟨h1, h4, h5, h3⟩
+
+example : (run St.init (sched "a".toList (.evThenPost (exMsg (some "a") 1) (.ok200 (some (exMsg (some "a") 2))))
+      [] [exMsg none 7] [])).out = [.routed (exMsg none 7), .routed (exMsg (some "a") 2)]
+    ∧ (run St.init (sched "a".toList (.evThenPost (exMsg (some "a") 1) .exc) [] [] [])).out = [.failErr "a".toList]
+    ∧ (run St.init (sched "a".toList (.evThenPost (exMsg (some "a") 1) (.other none)) [] [] [])).out = [.failErr "a".toList] := by
+  decide
+
 /-! ## event stream -/
 
 /-- Chunk independence: however the decoded event stream is cut into chunks (any number, any
